@@ -132,7 +132,10 @@ theorem startLoop_inv (c : Crypto G) (env : Env) (hb : env.bindsHash = true) (ms
     unfold startLoop
     have hu := update_inv c env hb st m h
     simp only []
-    split; · exact hu
+    split
+    · split
+      · exact ih _ hu
+      · exact hu
     split; · exact hu
     exact ih _ hu
 
